@@ -1,6 +1,7 @@
 import Casket.Model.Chain
 import Casket.Spec.Chain
 import Casket.Spec.Cond
+import Casket.Spec.Htpasswd
 import Driver.C02
 /-
 Streams of C03.
@@ -178,8 +179,97 @@ def chainJudge (f : List String) (out : String) : String :=
       | none => "bad:unparsable:" ++ out
       | some obs => Casket.ChainSpec.verdict c.fs c.cs c.req obs
 
+/-! ### c03.multi : several sites with htpasswd files in one process, histories of loads
+
+  c03.multi  sites  files  history  host  path  creds
+     sites    hex of  host:root:file:user;…          (one-letter host labels)
+     files    hex of  /abs/path=user:s|p:password,…[|next version of the file…];…   (s = {SHA} entry, p = plain entry)
+     history  hex of  loads separated by `;`: [R][version digit]labels — host labels in Casketfile order,
+              `R` = loaded while the previous instance is still running (reload), the digit = which version of the files is on disk at that load (default 1)
+     out      N (no such site) | U401 | C TAB hex root | S<status>
+-/
+open Casket.Htpasswd in
+def parseMSites (t : Bytes) : List SiteCfg :=
+  (splitOn 59 t).filterMap fun it =>
+    match splitOn 58 it with
+    | [h, r, f, u] => some { host := h, root := r, file := f, user := u }
+    | _ => none
+
+open Casket.Htpasswd in
+def parseMTable (t : Bytes) : Table :=
+  (splitOn 44 t).filterMap fun e =>
+    let a := cut 58 e
+    let b := cut 58 a.2.1
+    if !a.2.2 ∨ !b.2.2 then none
+    else if b.1 = [115] then some (a.1, Secret.sha b.2.1) else some (a.1, Secret.plain b.2.1)
+
+open Casket.Htpasswd in
+/-- the files as they are at version `v`: a path with fewer versions keeps its last one (and its stamp) -/
+def parseMFiles (t : Bytes) (v : Nat) : Files :=
+  (splitOn 59 t).filterMap fun it =>
+    let kv := cut 61 it
+    if !kv.2.2 then none
+    else
+      let versions := splitOn 124 kv.2.1
+      let i := if v > versions.length then versions.length else v
+      some (clean kv.1, i, parseMTable (versions.getD (i - 1) []))
+
+open Casket.Htpasswd in
+def parseMHistory (sites : List SiteCfg) (filesTxt t : Bytes) : List Load :=
+  (splitOn 59 t).map fun load =>
+    let l1 := match load with | 82 :: r => r | l => l
+    let (v, labels) := match l1 with
+      | d :: r => if 49 ≤ d ∧ d ≤ 57 then (d.toNat - 48, r) else (1, l1)
+      | [] => (1, [])
+    (parseMFiles filesTxt v, labels.flatMap fun l => sites.filter (fun s => s.host = [l]))
+
+structure MCase where
+  hist : List Casket.Htpasswd.Load
+  host : Bytes
+  path : Bytes
+  creds : Option (Bytes × Bytes)
+
+def parseMCase : List String → Option MCase
+  | [sH, fH, hH, host, pH, cH] => do
+    let sites := parseMSites (← Driver.unhex sH)
+    let cred ← Driver.unhex cH
+    let c3 := cut 58 cred
+    pure { hist := parseMHistory sites (← Driver.unhex fH) (← Driver.unhex hH),
+           host := host.toUTF8.toList, path := ← Driver.unhex pH,
+           creds := if cred = [] then none else some (c3.1, c3.2.1) }
+  | _ => none
+
+open Casket.Htpasswd in
+def multiModel (f : List String) : String :=
+  match parseMCase f with
+  | none => "bad-case"
+  | some c =>
+    match serve [] c.hist c.host c.path c.creds with
+    | .noSite => "N"
+    | .unauthorized => "U401"
+    | .content root => "C\t" ++ Driver.hex (clean root)
+
+open Casket.Htpasswd in
+def multiJudge (f : List String) (out : String) : String :=
+  match parseMCase f with
+  | none => "bad:unparsable:case"
+  | some c =>
+    let obs : Option Answer :=
+      if out = "N" then some .noSite
+      else if out = "U401" then some .unauthorized
+      else match out.splitOn "\t" with
+        | ["C", r] => (Driver.unhex r).map Answer.content
+        | _ => none
+    match obs, c.hist.getLast? with
+    | some o, some last =>
+      -- roots are compared in cleaned form
+      let served := last.2.map fun s => { s with root := clean s.root }
+      Casket.HtpasswdSpec.verdict last.1 served c.host c.path c.creds o
+    | _, _ => "bad:unparsable:" ++ out
+
 def streams : List Driver.Stream := [
-  { name := "c03.chain", model := chainModel, judge := chainJudge }
+  { name := "c03.chain", model := chainModel, judge := chainJudge },
+  { name := "c03.multi", model := multiModel, judge := multiJudge }
 ]
 
 end Driver.C03
